@@ -373,18 +373,23 @@ def sign_pattern(rep, F, tag):
             a = [canon(up.sym_operand(x)) for x in uv[0].args]
             R.check(a == ['self.ldlsolver', 'self.KKT', 'self.map.Hsblocks', 'self.Hsblocks'], 'Hs-wiring' + tag, '_update_values(%s)' % a, up.loc(uv[0].sp))
         rr = F.one(name='regularize_and_refactor', adt='DirectLDLKKTSolver')
-        cl = [g for g in F.closures_of.get(rr.key, [])]
-        ok = False
-        for g in cl:
-            for val, ret, evs, tr in Walker(g).leaves():
-                k = [x for x in val if x.startswith('eq(') and '1_i8' in x]
-                if k:
-                    names = [e[1] for e in evs if e[0] == 'call']
-                    if (val[k[0]] == 1 and 'add_assign' in names) or (val[k[0]] == 0 and 'sub_assign' in names):
-                        ok = True
-                    else:
-                        ok = False
-                        break
+        # the sign test may sit in a closure (for_each) or in a loop of the function itself, and may be written == 1 or != 1
+        seen_pm = set()
+        ok = True
+        for g in [rr] + [g_ for g_ in F.closures_of.get(rr.key, [])]:
+            for val, ret, evs, tr in Walker(g, cut_loops=True).leaves():
+                if ret[0] == 'diverge':
+                    continue
+                k = [x for x in val if x.startswith(('eq(', 'ne(')) and '1_i8' in x]
+                if not k:
+                    continue
+                positive = val[k[0]] if k[0].startswith('eq(') else 1 - val[k[0]]
+                names = [e[1] for e in evs if e[0] == 'call' and e[1] in ('add_assign', 'sub_assign')]
+                if names == ['add_assign' if positive else 'sub_assign']:
+                    seen_pm.add(positive)
+                else:
+                    ok = False
+        ok = ok and seen_pm == {0, 1}
         R.check(ok, 'regulariser-sign' + tag, 'the static regulariser does not add eps where sign==1 and subtract otherwise', rr.loc())
 
     R.guard(body)
